@@ -282,7 +282,7 @@ class Walker(object):
             p = self.pick_proto('C')
             ids = self.in_q2.get(p, [])
             mid = rng.choice(ids) if ids and rng.random() < 0.85 else rng.choice([1, 5, 100, 9999])
-            self.deliver(p, ack(0x62, mid))
+            self.deliver(p, ack(0x6A if rng.random() < 0.25 else 0x62, mid))       # a repeated PUBREL may carry DUP (3.1)
         elif kind == 'pingresp':
             p = self.pick_proto('C')
             self.deliver(p, pkt(0xD0))
